@@ -511,3 +511,488 @@ Proof.
   cbn [fst snd] in *. subst b1. cbn [op_raised op_subs].
   split; [first [assumption | reflexivity]|]. split; [reflexivity|]. eapply subs_served_no_sf; eauto.
 Qed.
+
+(* ================================================================== *)
+(* C. Version changes invalidate the function and its callers         *)
+(* ================================================================== *)
+
+Theorem version_miss_file : forall p f a k w w' r,
+  is_equal (func_version (w_old w) f) (func_version (w_new w) f) = false ->
+  build_file_cache_lookup p f a k w = (w', inl r) -> r = None.
+Proof.
+  intros p f a k w w' r Hv H. unfold build_file_cache_lookup in H. minv H; try reflexivity.
+  all: match goal with Hn : negb (is_equal _ _) = false |- _ => rewrite Hv in Hn; discriminate Hn end.
+Qed.
+
+Theorem version_miss_subbuild : forall key f w w' r,
+  is_equal (func_version (w_old w) f) (func_version (w_new w) f) = false ->
+  subbuild_cache_lookup key f w = (w', inl r) -> r = None.
+Proof.
+  intros key f w w' r Hv H. unfold subbuild_cache_lookup in H. minv H; try reflexivity.
+  all: match goal with Hn : negb (is_equal _ _) = false |- _ => rewrite Hv in Hn; discriminate Hn end.
+Qed.
+
+(* the version of [f] differs between the old and the new cache *)
+Definition vne (f : string) (w : world) : Prop :=
+  is_equal (func_version (w_old w) f) (func_version (w_new w) f) = false.
+
+Lemma vne_svb : forall f w w', same_but_view w w' -> vne f w -> vne f w'.
+Proof.
+  unfold vne, same_but_view. intros f w w' H V.
+  destruct H as (A1 & A2 & A3 & A4 & A5 & _). rewrite A4, A5. exact V.
+Qed.
+
+(* collect the footprint facts of the runs in the context, and move [vne] along them *)
+Ltac svb_facts :=
+  repeat match goal with
+  | E : ?m ?w = (?w1, _) |- _ =>
+      lazymatch goal with
+      | _ : same_but_view w w1 |- _ => fail
+      | _ => let X := fresh "SV" in
+             assert (X : same_but_view w w1)
+               by (refine ((_ : pres svbPO m) w w1 _ E); eauto with pres)
+      end
+  end.
+Ltac vne_facts :=
+  repeat match goal with
+  | SV : same_but_view ?w ?w1, V : vne ?f ?w |- _ =>
+      lazymatch goal with
+      | _ : vne f w1 |- _ => fail
+      | _ => pose proof (vne_svb f w w1 SV V)
+      end
+  end.
+
+Definition vmc (f : string) (o : op) : Prop :=
+  forall cf w w' b cf', vne f w -> mentions f o = true ->
+  is_op_cached o cf w = (w', inl (b, cf')) -> b = false.
+
+Lemma subs_vmc : forall f subs, Forall (vmc f) subs ->
+  forall cf w w' b cf', vne f w -> existsb (mentions f) subs = true ->
+  are_subs_cached subs cf w = (w', inl (b, cf')) -> b = false.
+Proof.
+  intros f subs HF. induction HF as [|s rest Hs HF IH]; intros cf w w' b cf' V Hex H.
+  - discriminate Hex.
+  - cbn [existsb] in Hex. cbn [are_subs_cached] in H. minv H; try reflexivity.
+    match goal with E : is_op_cached s _ _ = (_, inl ?x) |- _ => destruct x as [b1 cf1] end.
+    cbn [fst snd] in *. subst b1.
+    destruct (mentions f s) eqn:Es.
+    + match goal with E : is_op_cached s _ _ = _ |- _ =>
+        pose proof (Hs _ _ _ _ _ V Es E) as X; discriminate X end.
+    + cbn [orb] in Hex. svb_facts. vne_facts. eapply IH; [| exact Hex | exact H]; assumption.
+Qed.
+
+Theorem version_miss_callers : forall f o cf w w' b cf',
+  is_equal (func_version (w_old w) f) (func_version (w_new w) f) = false ->
+  mentions f o = true -> is_op_cached o cf w = (w', inl (b, cf')) -> b = false.
+Proof.
+  intros f o.
+  induction o as [q r e | p c fn a k subs r cr ra sf IH | fn a k subs r ra sf IH] using op_ind';
+    intros cf w w' b cf' V Hm H; change (vne f w) in V.
+  - discriminate Hm.
+  - cbn [mentions] in Hm. cbn [is_op_cached] in H.
+    destruct (String.eqb fn f) eqn:Ef.
+    + apply String.eqb_eq in Ef. subst fn. minv H; try reflexivity.
+      all: match goal with Hn : negb (is_equal _ _) = false |- _ =>
+             unfold vne in V; rewrite V in Hn; discriminate Hn end.
+    + cbn [orb] in Hm. minv H; try reflexivity.
+      all: rewrite subs_go_eq in *; svb_facts; vne_facts.
+      all: match goal with
+           | E : are_subs_cached ?s _ _ = (_, inl ?x), Hn : negb (fst ?x) = false |- _ =>
+               destruct x as [b1 cf1]; cbn [fst snd] in *; apply negb_false_iff in Hn; subst b1;
+               eapply (subs_vmc f s IH); [| exact Hm | exact E]; assumption
+           end.
+  - cbn [mentions] in Hm. cbn [is_op_cached] in H.
+    destruct (String.eqb fn f) eqn:Ef.
+    + apply String.eqb_eq in Ef. subst fn. minv H; try reflexivity.
+      all: match goal with Hn : negb (is_equal _ _) || _ = false |- _ =>
+             unfold vne in V; rewrite V in Hn; discriminate Hn end.
+    + cbn [orb] in Hm. minv H; try reflexivity.
+      rewrite subs_go_eq in *. eapply (subs_vmc f subs IH); [| exact Hm | exact H]; assumption.
+Qed.
+
+(* ================================================================== *)
+(* D. At most one execution per key                                   *)
+(* ================================================================== *)
+
+Lemma bind_raise_eq : forall A B (m : M A) (f : A -> M B) w w' e,
+  m w = (w', inr e) -> bind m f w = (w', inr e).
+Proof. intros A B m f w w' e H. unfold bind. rewrite H. reflexivity. Qed.
+
+Lemma new_assert_no_file_dup : forall p w, cache_has_file (w_new w) p = true ->
+  new_assert_no_file p w = (w, inr (XRuntime RDupFile)).
+Proof.
+  intros p w H. unfold new_assert_no_file, bind, get. rewrite H. reflexivity.
+Qed.
+
+Lemma new_assert_no_subbuild_dup : forall k w, cache_has_subbuild (w_new w) k = true ->
+  new_assert_no_subbuild k w = (w, inr (XRuntime RDupSubbuild)).
+Proof.
+  intros k w H. unfold new_assert_no_subbuild, bind, get. rewrite H. reflexivity.
+Qed.
+
+Theorem dup_file_rejected : forall p c f a kw fn w sa skw,
+  sanitize a = Some sa -> sanitize kw = Some skw -> cache_has_file (w_new w) p = true ->
+  m_build_file p c f a kw fn w =
+  (w, (inr (XRuntime RDupFile), Some (OBuildFile p c f sa skw [] PNone PNone true true))).
+Proof.
+  intros p c f a kw fn w sa skw Ha Hk Hc. unfold m_build_file. rewrite Ha, Hk. cbv zeta.
+  rewrite (bind_raise_eq _ _ _ _ _ _ _ (new_assert_no_file_dup p w Hc)). reflexivity.
+Qed.
+
+Theorem dup_subbuild_rejected : forall f a kw fn w sa skw,
+  sanitize a = Some sa -> sanitize kw = Some skw ->
+  cache_has_subbuild (w_new w) (subbuild_key f sa skw) = true ->
+  m_subbuild f a kw fn w =
+  (w, (inr (XRuntime RDupSubbuild), Some (OSubbuild f sa skw [] PNone true true))).
+Proof.
+  intros f a kw fn w sa skw Ha Hk Hc. unfold m_subbuild. rewrite Ha, Hk. cbv zeta.
+  rewrite (bind_raise_eq _ _ _ _ _ _ _ (new_assert_no_subbuild_dup _ w Hc)). reflexivity.
+Qed.
+
+(* ---- routines that leave the new cache alone ---- *)
+
+Ltac new_solve :=
+  lazymatch goal with |- rel newPO ?a ?b => change (new_same a b) | _ => idtac end;
+  first [ apply new_same_refl
+        | unfold new_same; cbn; repeat split; reflexivity ].
+
+Ltac raw_new f :=
+  intros w w' r H; unfold f in H; cbv zeta in H; repeat dm H; inversion H; subst; new_solve.
+
+Lemma effect_new : forall what p f, pres newPO (effect what p f).
+Proof. intros what p f. raw_new effect. Qed.
+
+Lemma effect_p_new : forall what p f, pres newPO (effect_p what p f).
+Proof. intros what p f. raw_new effect_p. Qed.
+
+Lemma m_bd_started_svb : forall p created, pres svbPO (m_bd_started p created).
+Proof. intros p created. raw_svb m_bd_started. Qed.
+
+Lemma m_bd_error_svb : forall p, pres svbPO (m_bd_error p).
+Proof. intros p. raw_svb m_bd_error. Qed.
+#[local] Hint Resolve effect_new effect_p_new m_bd_started_svb m_bd_error_svb : pres.
+
+Lemma back_up_and_remove_new : forall p, pres newPO (back_up_and_remove p).
+Proof.
+  intro p. unfold back_up_and_remove. apply pres_bind; [auto with pres|]. intros _.
+  intros w w' r H. cbv zeta in H. repeat dm H; inversion H; subst; new_solve.
+Qed.
+#[local] Hint Resolve back_up_and_remove_new : pres.
+
+Lemma try_to_remove_file_new : forall p, pres newPO (try_to_remove_file p).
+Proof. intro p. unfold try_to_remove_file. pres_auto. Qed.
+
+Lemma remove_empty_dirs_new : forall ds, pres newPO (remove_empty_dirs ds).
+Proof. intro ds. unfold remove_empty_dirs. pres_auto. Qed.
+
+Lemma make_one_dir_new : forall d, pres newPO (make_one_dir d).
+Proof. intro d. unfold make_one_dir. pres_auto. Qed.
+#[local] Hint Resolve try_to_remove_file_new remove_empty_dirs_new make_one_dir_new : pres.
+
+Lemma make_dirs_loop_new : forall ds made, pres newPO (make_dirs_loop ds made).
+Proof.
+  induction ds as [|d ds IH]; intro made; cbn [make_dirs_loop]; pres_auto.
+Qed.
+#[local] Hint Resolve make_dirs_loop_new : pres.
+
+Lemma make_dirs_new : forall d, pres newPO (make_dirs d).
+Proof. intro d. unfold make_dirs. pres_auto. Qed.
+#[local] Hint Resolve make_dirs_new : pres.
+
+Lemma make_room_new : forall fuel d, pres newPO (make_room fuel d).
+Proof.
+  induction fuel as [|fuel IH]; intro d; cbn [make_room]; pres_auto.
+Qed.
+#[local] Hint Resolve make_room_new : pres.
+
+Lemma prepare_file_creation_new : forall p, pres newPO (prepare_file_creation p).
+Proof. intro p. unfold prepare_file_creation. pres_auto. Qed.
+#[local] Hint Resolve prepare_file_creation_new : pres.
+
+Lemma apply_cached_subs_of_new : forall o, pres newPO (apply_cached_subs_of o).
+Proof.
+  induction o as [q r e | p c f a k subs r cr ra sf IH | f a k subs r ra sf IH] using op_ind';
+    cbn [apply_cached_subs_of].
+  - apply pres_ret.
+  - induction IH as [|s rest Hs HF IHl]; cbn beta iota fix; [apply pres_ret|].
+    apply pres_bind; [|intros _; exact IHl]. pres_auto.
+  - induction IH as [|s rest Hs HF IHl]; cbn beta iota fix; [apply pres_ret|].
+    apply pres_bind; [|intros _; exact IHl]. pres_auto.
+Qed.
+#[local] Hint Resolve apply_cached_subs_of_new : pres.
+
+(* ---- the new cache only grows ---- *)
+
+Definition cache_le (c c' : cache) : Prop :=
+  (forall p, cache_has_file c p = true -> cache_has_file c' p = true) /\
+  (forall k, cache_has_subbuild c k = true -> cache_has_subbuild c' k = true).
+
+Lemma cache_le_refl : forall c, cache_le c c.
+Proof. intro c. split; auto. Qed.
+Lemma cache_le_trans : forall a b c, cache_le a b -> cache_le b c -> cache_le a c.
+Proof. intros a b c [A1 A2] [B1 B2]. split; auto. Qed.
+
+Lemma files_get_set_same : forall l p o, files_get (files_set l p o) p = Some o.
+Proof.
+  induction l as [|[q o'] l IH]; intros p o; cbn [files_set files_get].
+  - rewrite path_eqb_refl. reflexivity.
+  - destruct (path_eqb q p) eqn:E; cbn [files_get]; rewrite E; [reflexivity | apply IH].
+Qed.
+
+Lemma files_set_keeps : forall l q o p,
+  (exists x, files_get l p = Some x) -> exists y, files_get (files_set l q o) p = Some y.
+Proof.
+  induction l as [|[q' o'] l IH]; intros q o p [x Hx]; cbn [files_set files_get] in *.
+  - discriminate Hx.
+  - destruct (path_eqb q' q) eqn:E; cbn [files_get].
+    + destruct (path_eqb q' p); eauto.
+    + destruct (path_eqb q' p); eauto.
+Qed.
+
+Lemma subs_set_keeps : forall l q o k,
+  (exists x, subs_get l k = Some x) -> exists y, subs_get (subs_set l q o) k = Some y.
+Proof.
+  induction l as [|[q' o'] l IH]; intros q o k [x Hx]; cbn [subs_set subs_get] in *.
+  - discriminate Hx.
+  - destruct (py_eq q' q) eqn:E; cbn [subs_get].
+    + destruct (py_eq q' k); eauto.
+    + destruct (py_eq q' k); eauto.
+Qed.
+
+Lemma has_file_iff : forall c p, cache_has_file c p = true <-> exists x, files_get (c_files c) p = Some x.
+Proof.
+  intros c p. unfold cache_has_file. destruct (files_get (c_files c) p); split; intro H;
+    try reflexivity; try discriminate; eauto. destruct H; discriminate.
+Qed.
+
+Lemma has_subbuild_iff : forall c k, cache_has_subbuild c k = true <-> exists x, subs_get (c_subs c) k = Some x.
+Proof.
+  intros c k. unfold cache_has_subbuild. destruct (subs_get (c_subs c) k); split; intro H;
+    try reflexivity; try discriminate; eauto. destruct H; discriminate.
+Qed.
+
+Lemma cache_le_files_set : forall c p o built,
+  cache_le c (cache_with c (files_set (c_files c) p o) (c_subs c) (c_dirs c) built).
+Proof.
+  intros c p o built. split.
+  - intros q H. apply has_file_iff in H. apply has_file_iff. cbn. apply files_set_keeps, H.
+  - intros k H. exact H.
+Qed.
+
+Lemma cache_le_subs_set : forall c k o,
+  cache_le c (cache_with c (c_files c) (subs_set (c_subs c) k o) (c_dirs c) (c_built c)).
+Proof.
+  intros c k o. split.
+  - intros q H. exact H.
+  - intros q H. apply has_subbuild_iff in H. apply has_subbuild_iff. cbn. apply subs_set_keeps, H.
+Qed.
+
+Lemma has_file_files_set : forall c p o built,
+  cache_has_file (cache_with c (files_set (c_files c) p o) (c_subs c) (c_dirs c) built) p = true.
+Proof.
+  intros c p o built. apply has_file_iff. cbn. rewrite files_get_set_same. eauto.
+Qed.
+
+Lemma fold_register_le : forall subs,
+  Forall (fun o => forall c, cache_le c (register_op c o)) subs ->
+  forall c, cache_le c (fold_left register_op subs c).
+Proof.
+  intros subs HF. induction HF as [|s rest Hs HF IH]; intro c; cbn [fold_left].
+  - apply cache_le_refl.
+  - eapply cache_le_trans; [apply Hs | apply IH].
+Qed.
+
+Lemma register_op_le : forall o c, cache_le c (register_op c o).
+Proof.
+  induction o as [q r e | p c0 f a k subs r cr ra sf IH | f a k subs r ra sf IH] using op_ind';
+    intro c; cbn [register_op].
+  - apply cache_le_refl.
+  - eapply cache_le_trans; [|apply fold_register_le; exact IH].
+    destruct sf; [apply cache_le_refl | apply cache_le_files_set].
+  - eapply cache_le_trans; [|apply fold_register_le; exact IH].
+    destruct sf; [apply cache_le_refl | apply cache_le_subs_set].
+Qed.
+
+Lemma claims_le_cache_le : forall w w', claims_le w w' <-> cache_le (w_new w) (w_new w').
+Proof. intros; reflexivity. Qed.
+
+Lemma new_assert_no_file_svb : forall p, pres svbPO (new_assert_no_file p).
+Proof. intro p. unfold new_assert_no_file. pres_auto. Qed.
+Lemma new_assert_no_subbuild_svb : forall k, pres svbPO (new_assert_no_subbuild k).
+Proof. intro k. unfold new_assert_no_subbuild. pres_auto. Qed.
+#[local] Hint Resolve new_assert_no_file_svb new_assert_no_subbuild_svb : pres.
+
+Lemma new_start_building_file_claims : forall p, pres claimsPO (new_start_building_file p).
+Proof.
+  intro p. unfold new_start_building_file. pres_auto. apply pres_modify. intro w.
+  apply claims_le_cache_le. cbn. apply cache_le_files_set.
+Qed.
+
+Lemma new_finish_building_file_claims : forall p o, pres claimsPO (new_finish_building_file p o).
+Proof.
+  intros p o. unfold new_finish_building_file. apply pres_modify. intro w.
+  apply claims_le_cache_le. cbn. apply cache_le_files_set.
+Qed.
+
+Lemma new_start_subbuild_claims : forall k, pres claimsPO (new_start_subbuild k).
+Proof.
+  intro k. unfold new_start_subbuild. pres_auto. apply pres_modify. intro w.
+  apply claims_le_cache_le. cbn. apply cache_le_subs_set.
+Qed.
+
+Lemma new_finish_subbuild_claims : forall k o, pres claimsPO (new_finish_subbuild k o).
+Proof.
+  intros k o. unfold new_finish_subbuild. apply pres_modify. intro w.
+  apply claims_le_cache_le. cbn. apply cache_le_subs_set.
+Qed.
+
+Lemma new_use_cached_operation_claims : forall o, pres claimsPO (new_use_cached_operation o).
+Proof.
+  intros o w w' r H. unfold new_use_cached_operation in H. minv H.
+  - unfold put in H. inversion H; subst. apply claims_le_cache_le. cbn. apply register_op_le.
+  - apply claims_le_refl.
+Qed.
+#[local] Hint Resolve new_start_building_file_claims new_finish_building_file_claims
+  new_start_subbuild_claims new_finish_subbuild_claims new_use_cached_operation_claims : pres.
+
+Lemma claims_le_set_log : forall l w, claims_le w (set_log l w).
+Proof. intros l w. split; intros x H; exact H. Qed.
+
+(* collect the claim facts of the runs in the context *)
+Ltac claims_facts :=
+  repeat match goal with
+  | E : ?m ?w = (?w1, _) |- _ =>
+      lazymatch goal with
+      | _ : claims_le w w1 |- _ => fail
+      | _ => let X := fresh "CL" in
+             assert (X : claims_le w w1)
+               by (first [ match goal with Hfn : forall p' a' k' v v' r', _ = _ -> claims_le v v' |- _ =>
+                             eapply Hfn; exact E end
+                         | match goal with Hfn : forall a' k' v v' r', _ = _ -> claims_le v v' |- _ =>
+                             eapply Hfn; exact E end
+                         | refine ((_ : pres claimsPO m) w w1 _ E); solve [pres_auto] ])
+      end
+  end.
+Ltac cl_chain :=
+  repeat first [ eassumption
+               | apply claims_le_refl
+               | apply claims_le_set_log
+               | eapply claims_le_trans; [eassumption|]
+               | eapply claims_le_trans; [apply claims_le_set_log|] ].
+
+Lemma m_build_file_claims_mono : forall p c f a kw fn w w' r,
+  (forall p' a' k' v v' r', fn p' a' k' v = (v', r') -> claims_le v v') ->
+  m_build_file p c f a kw fn w = (w', r) -> claims_le w w'.
+Proof.
+  intros p c f a kw fn w w' r Hfn H. unfold m_build_file in H.
+  destruct (sanitize a) as [sa|]; [|inversion H; subst; apply claims_le_refl].
+  destruct (sanitize kw) as [skw|]; [|inversion H; subst; apply claims_le_refl].
+  cbv zeta in H.
+  match type of H with (match ?X with _ => _ end) = _ => destruct X as [w1 res] eqn:Hs end.
+  repeat dm H; inversion H; subst; claims_facts; cl_chain.
+Qed.
+
+Lemma m_subbuild_claims_mono : forall f a kw fn w w' r,
+  (forall a' k' v v' r', fn a' k' v = (v', r') -> claims_le v v') ->
+  m_subbuild f a kw fn w = (w', r) -> claims_le w w'.
+Proof.
+  intros f a kw fn w w' r Hfn H. unfold m_subbuild in H.
+  destruct (sanitize a) as [sa|]; [|inversion H; subst; apply claims_le_refl].
+  destruct (sanitize kw) as [skw|]; [|inversion H; subst; apply claims_le_refl].
+  cbv zeta in H.
+  match type of H with (match ?X with _ => _ end) = _ => destruct X as [w1 res] eqn:Hs end.
+  repeat dm H; inversion H; subst; claims_facts; cl_chain.
+Qed.
+
+Lemma m_query_svb : forall q, pres svbPO (m_query q).
+Proof.
+  intros q w w' r H. unfold m_query in H.
+  destruct (exec_query q None w) as [w1 x] eqn:E.
+  apply query_footprint in E. repeat dm H; inversion H; subst; exact E.
+Qed.
+
+Lemma claims_le_log_answer : forall q r w, claims_le w (log_answer q r w).
+Proof.
+  intros q r w. unfold log_answer. repeat match goal with |- context [match ?x with _ => _ end] => destruct x end;
+    split; intros x H; exact H.
+Qed.
+
+Theorem run_claims_mono : forall pr target subs w w' r,
+  run pr target subs w = (w', r) -> claims_le w w'.
+Proof.
+  induction pr as [v | e | stale q k IH | c k IH | stale p c f a kw fn IHfn k IHk | stale f a kw fn IHfn k IHk];
+    intros target subs w w' r H; cbn [run] in H.
+  - inversion H; subst. apply claims_le_refl.
+  - inversion H; subst. apply claims_le_refl.
+  - destruct stale; [eapply IH; eauto|].
+    destruct (m_query q w) as [w1 [r1 o]] eqn:E.
+    apply m_query_svb in E. apply svb_claims in E.
+    apply IH in H. eapply claims_le_trans; [exact E|].
+    eapply claims_le_trans; [apply claims_le_log_answer | exact H].
+  - destruct target as [p|]; [|eapply IH; eauto].
+    destruct (write_file (w_fs w) p c None (N.succ (w_clock w)) (w_nextid w)) as [fs'|e].
+    + apply IH in H. eapply claims_le_trans; [|exact H]. split; intros x Hx; exact Hx.
+    + inversion H; subst. apply claims_le_refl.
+  - destruct stale; [eapply IHk; eauto|].
+    match type of H with (let '(_, _) := ?X in _) = _ => destruct X as [w1 [r1 o]] eqn:E end.
+    apply m_build_file_claims_mono in E; [|intros; eapply IHfn; eauto].
+    apply IHk in H. eapply claims_le_trans; eauto.
+  - destruct stale; [eapply IHk; eauto|].
+    match type of H with (let '(_, _) := ?X in _) = _ => destruct X as [w1 [r1 o]] eqn:E end.
+    apply m_subbuild_claims_mono in E; [|intros; eapply IHfn; eauto].
+    apply IHk in H. eapply claims_le_trans; eauto.
+Qed.
+
+(* [minv] extended with [catch] *)
+Ltac minvc H :=
+  cbv beta iota in H;
+  lazymatch type of H with
+  | bind _ _ _ = _ =>
+      let H1 := fresh "E" in
+      apply bind_inv in H;
+      destruct H as [(?w & ?a & H1 & H) | (?e & H1 & H)];
+      [ minvc H1; minvc H | try discriminate H; minvc H1 ]
+  | catch _ _ _ = _ =>
+      let H1 := fresh "E" in
+      apply catch_inv in H;
+      destruct H as [(?a & H1 & H) | (?w & ?e & H1 & H)];
+      [ try discriminate H; try (inversion H; subst; clear H); minvc H1 | minvc H1; minvc H ]
+  | attempt _ _ = _ =>
+      let H1 := fresh "E" in let H2 := fresh "E" in
+      apply attempt_inv in H; destruct H as (?x & H1 & H2);
+      try discriminate H2; try (inversion H2; subst; clear H2); minvc H1
+  | ret _ _ = _ => inversion H; subst; clear H
+  | raise _ _ = _ => inversion H; subst; clear H
+  | get _ = _ => inversion H; subst; clear H
+  | (match ?x with _ => _ end) _ = _ => destruct x eqn:?; minvc H
+  | _ => idtac
+  end.
+
+Lemma new_use_cached_operation_has_file : forall p c f a k subs r cr ra w w' x,
+  new_use_cached_operation (OBuildFile p c f a k subs r cr ra false) w = (w', inl x) ->
+  cache_has_file (w_new w') p = true.
+Proof.
+  intros p c f a k subs r cr ra w w' x H. unfold new_use_cached_operation in H. minv H.
+  unfold put in H. inversion H; subst. cbn [w_new set_new register_op].
+  apply (fold_register_le subs).
+  - apply Forall_forall. intros o _. apply register_op_le.
+  - apply has_file_files_set.
+Qed.
+
+Theorem claimed_after_success : forall p c f a kw fn w w' v o,
+  (forall p' a' k' u u' r', fn p' a' k' u = (u', r') -> claims_le u u') ->
+  m_build_file p c f a kw fn w = (w', (inl v, Some o)) -> cache_has_file (w_new w') p = true.
+Proof.
+  intros p c f a kw fn w w' v o Hfn H. unfold m_build_file in H.
+  destruct (sanitize a) as [sa|]; [|discriminate H].
+  destruct (sanitize kw) as [skw|]; [|discriminate H].
+  cbv zeta in H.
+  match type of H with (match ?X with _ => _ end) = _ => destruct X as [w1 res] eqn:Hs end.
+  repeat dm H; try discriminate H; inversion H; subst.
+  2-9: match goal with E : new_finish_building_file _ _ _ = (_, _) |- _ =>
+         unfold new_finish_building_file, modify in E; inversion E; subst;
+         cbn [w_new set_new]; apply has_file_files_set end.
+  clear H. minvc Hs.
+  all: match goal with E : new_use_cached_operation _ _ = (_, inl _) |- _ =>
+         exact (new_use_cached_operation_has_file _ _ _ _ _ _ _ _ _ _ _ _ E) end.
+Qed.
